@@ -209,13 +209,25 @@ func cmdCheck(args []string) int {
 		all = append(all, res.Obls...)
 	}
 	// select claimed obligations
-	// Support closure: an ensures clause is proved from the loop invariants of its function, and a
-	// broken invariant is reported under the invariant's own name - so every loop-invariant
-	// obligation of a function from which something is claimed is claimed too.
+	// Support closure: an ensures clause is proved from the loop invariants of its function and
+	// from the postconditions of its callees, whose preconditions are assumed after the call; a
+	// broken invariant or callee precondition is reported under its own name - so every
+	// loop-invariant and call-precondition obligation of a listed function is claimed too
+	// (those that are not discharged on the unchanged tree are excluded by name, with the reason,
+	// in props.json).
 	pats := append([]string(nil), spec.Obligations...)
 	for _, f := range spec.Functions {
-		pats = append(pats, f+".loop*")
+		pats = append(pats, f+".loop*", f+".*#loop*", f+".call:*", f+".*#call:*")
 	}
+	// obligations that are generated but deliberately not claimed by any property (with reasons)
+	var unclaimed []struct{ Pattern, Reason string }
+	if b, err := os.ReadFile(filepath.Join(*vdir, "unclaimed.json")); err == nil {
+		if err := json.Unmarshal(b, &unclaimed); err != nil {
+			fmt.Printf("ENGINE-FAULT unclaimed.json: %v\n", err)
+			os.Exit(2)
+		}
+	}
+	notClaimed := map[string]string{}
 	var claimed []*Obligation
 	for _, o := range all {
 		excluded := false
@@ -224,11 +236,18 @@ func cmdCheck(args []string) int {
 				excluded = true
 			}
 		}
+		for _, u := range unclaimed {
+			if globMatch(u.Pattern, o.Name) {
+				excluded = true
+				notClaimed[o.Name] = u.Reason
+			}
+		}
 		if excluded {
 			continue
 		}
-		for _, p := range pats {
+		for pi, p := range pats {
 			if globMatch(p, o.Name) {
+				o.Auto = pi >= len(spec.Obligations)
 				claimed = append(claimed, o)
 				break
 			}
@@ -267,6 +286,21 @@ func cmdCheck(args []string) int {
 	Discharge(extra, dir, 4, 16, false)
 	if tier == "thorough" {
 		secondSolver(claimed, dir, timeout)
+	}
+	// A loop invariant claimed only through the support closure whose hypotheses are unsatisfiable
+	// sits in a loop body that is unreachable in this calling context (e.g. a loop over a table that
+	// the caller has just emptied): it supports nothing here and is not counted.
+	var unreachable []string
+	{
+		kept := claimed[:0]
+		for _, o := range claimed {
+			if o.Auto && o.Cover == "unsat" {
+				unreachable = append(unreachable, o.Name)
+				continue
+			}
+			kept = append(kept, o)
+		}
+		claimed = kept
 	}
 	aggs := aggregate(claimed)
 	// baseline comparison
@@ -426,6 +460,12 @@ func cmdCheck(args []string) int {
 		for _, a := range abstracted {
 			tb = append(tb, "abstracted construct: "+a)
 		}
+		for _, n := range sortedKeys2(notClaimed) {
+			tb = append(tb, "generated but not claimed: "+n+" ("+notClaimed[n]+")")
+		}
+		for _, u := range unreachable {
+			tb = append(tb, "not counted: loop invariant in a loop body unreachable in this calling context: "+u)
+		}
 		tb = append(tb, spec.Assumptions...)
 		tb = append(tb, "govc (this VC generator), go/types, z3 4.8.12 / z3 5.1.0 / cvc5 1.0.3, Go memory model for sync.Mutex")
 		ev := map[string]interface{}{
@@ -559,4 +599,13 @@ func (e *Engine) regionTerm(o *Obligation, region string) (string, error) {
 		return "", fmt.Errorf("no region evaluator")
 	}
 	return o.vc.regionEval(region)
+}
+
+func sortedKeys2(m map[string]string) []string {
+	var ks []string
+	for k := range m {
+		ks = append(ks, k)
+	}
+	sort.Strings(ks)
+	return ks
 }
